@@ -19,7 +19,7 @@ GROUPINGS = ("UNIT", "GROUPED", "GROUPED_OPTIMIZED")
 SLICES = ("ROMBERG_DEFAULT", "TRAPEZOID")
 CONTAINERS = ("ROMBERG_DEFAULT", "SIMPSON_ROMBERG")
 
-BOUND = ("intervals [0,1], [-1,3], [-6,-3], [0.5,0.75], [2,2.125] (end points and all dyadic points exactly representable: the library "
+BOUND = ("intervals [0,1], [-1,3], [-6,-3], [0.5,0.75], [2,2.125], and for the trees of depth <= 3 also [0,2^-30], [-2^-29,0] (end points and all dyadic points exactly representable: the library "
          "asserts the step width with ==); every dyadic refinement tree of depth<=4 (677 trees incl. the one without inner point; a node may "
          "have one child) x SliceGrouping {UNIT,GROUPED,GROUPED_OPTIMIZED} x SliceVersion {ROMBERG_DEFAULT,TRAPEZOID} x "
          "SliceContainerVersion {ROMBERG_DEFAULT,SIMPSON_ROMBERG} x force_balanced_refinement_tree {False,True} (the tree without inner "
@@ -493,6 +493,17 @@ def run(ctx):
             case = {"kind": "balanced", "a": a, "b": b, "levels": levels_of(t)}
             ctx.case(case)
             balanced_case(ctx, case)
+    # very short intervals (the step widths of neighbouring slices differ by less than numpy's default absolute tolerance 1e-8: exact comparisons of
+    # step widths must not be replaced by tolerant ones; missed seed C11_8), all trees of depth <= 3, all options
+    for (a, b) in ((0.0, 2.0 ** -30), (-2.0 ** -29, 0.0)):
+        for t in all_trees(3):
+            if t is None:
+                continue
+            levels = levels_of(t)
+            for grouping, slice_v, container, balanced in option_tuples(levels):
+                case = {"kind": "tree", "a": a, "b": b, "levels": levels, "grouping": grouping, "slice": slice_v, "container": container, "balanced": balanced}
+                ctx.case(case, nontrivial=len(levels) > 2)
+                tree_case(ctx, case)
     # wrappers with cache
     for (a, b) in intervals[:2]:
         wrapper_pass(ctx, a, b, all_trees(3))
